@@ -139,11 +139,12 @@ class C09(Prop):
                     out.append(V(pid, "C09/reuse-decision/%s" % ("reused" if r["same"] else "replaced"),
                                  "expected same=%r got %r (prev=%r kw=%r)" % (exp_same, r["same"], prev, kw)))
                 if not r["same"]:
-                    last_kw = _kw_identity(kw)
-                    if last_kw.get("context") is not None:
-                        last_kw = None    # a context object is built per call: never equal again
+                    last_kw = _kw_identity(kw)    # a context name maps to one cached context object: compares equal
                 if r["fresh"] and (r["broken"] or r["shutdown"]):
                     out.append(V(pid, "C09/returned-executor-not-healthy", "fresh executor broken=%r shutdown=%r at return" % (r["broken"], r["shutdown"])))
+        for e in res.obs.events:
+            if e["op"] == "reusable" and e["phase"] == "exc":
+                out.append(V(pid, "C09/get-reusable-executor-raised/%s" % e["r"]["e"]["type"], "kw=%r: %s" % (e["o"]["kw"], e["r"]["e"]["msg"][:200])))
         # every thread's tasks complete with their values (deaths make BrokenProcessPool legal)
         out += X.check_future_outcomes(res, pid, allow_broken=True, allow_shutdown_error=True)
         return out
